@@ -91,4 +91,17 @@ theorem loginfo_iff_announced (addr api : String) (locals : List LocalShard) (ad
     (agentReport addr api locals adv li log).plogIncluded = li ∧ (agentReport addr api locals adv li log).plogInfo = log :=
   ⟨rfl, rfl⟩
 
+/-- C18 "with the intended effect", launch / join / restore table: a join request starts the replica whether or not the
+    NodeHost already holds data of it (so the resent join request after a restart is not lost) -/
+theorem instantiate_join_starts (hasInfo : Bool) : instantiate true false hasInfo = .start true := rfl
+
+/-- a restore request starts the replica exactly when its data is there, and starts it as a restart (no join) -/
+theorem instantiate_restore_iff_data (hasInfo : Bool) :
+    (instantiate false true hasInfo).started = hasInfo ∧
+      (hasInfo = true → instantiate false true hasInfo = .start false) := by
+  cases hasInfo <;> simp [instantiate, InstOutcome.started]
+
+/-- a launch request on a NodeHost without data of the replica starts it as an initial member -/
+theorem instantiate_launch_fresh : instantiate false false false = .start false := rfl
+
 end Drummer
